@@ -73,6 +73,10 @@ func (d h08Dev) text() string {
 	return "deviate " + d.kind + " {" + body + " } "
 }
 
+// h08Slim: the pair universe of the thorough tier keeps to two values per element bound and one
+// unresolvable type spelling.
+var h08Slim bool
+
 func h08Draw() h08Dev {
 	d := h08Dev{kind: []string{"not-supported", "add", "replace", "delete", "bogus"}[symChoice(5)]}
 	if d.kind == "not-supported" {
@@ -92,11 +96,21 @@ func h08Draw() h08Dev {
 	case "config", "mandatory":
 		d.bval = symChoice(2) == 1
 	case "min":
-		d.nval = []uint64{1, 5, 0}[symChoice(3)] // 0: the statement is given with its default value
+		if h08Slim {
+			d.nval = []uint64{1, 5}[symChoice(2)]
+		} else {
+			d.nval = []uint64{1, 5, 0}[symChoice(3)] // 0: the statement is given with its default value
+		}
 	case "max":
-		d.nval = []uint64{1, 5, 1<<64 - 1}[symChoice(3)] // the last: `unbounded`
+		if h08Slim {
+			d.nval = []uint64{1, 5}[symChoice(2)]
+		} else {
+			d.nval = []uint64{1, 5, 1<<64 - 1}[symChoice(3)] // the last: `unbounded`
+		}
 	case "badtype":
-		d.nval = uint64(symChoice(5))
+		if !h08Slim {
+			d.nval = uint64(symChoice(5))
+		}
 	}
 	return d
 }
@@ -198,6 +212,7 @@ func H08() {
 	base := `module m { namespace "urn:m"; prefix m; typedef td { type string; default "t"; } leaf lt { type td; } ` + lf + ` ` + ll + ` list ls { key k; leaf k { type string; } max-elements 5; } container c { leaf other { type string; default "o"; } } leaf untouched { type int8; default "3"; } grouping g { leaf gl { type string; default "a"; } } container u1 { uses g; } container u2 { uses g; } }`
 	targets := []string{"lf", "ll", "ls", "c", "missing", "u1/m:gl", "lt"}
 	slim := param("slim") == 1 // pairs of deviate statements: two targets, no variants
+	h08Slim = slim
 	if slim {
 		targets = targets[:2]
 	}
@@ -462,6 +477,7 @@ func H08tri() {
 // any kind and property: each target is what the reference application gives, everything else is
 // untouched, and an unappliable deviation in either module is reported.
 func H08multi() {
+	h08Slim = false
 	base := `module m { namespace "urn:m"; prefix m; leaf lf { type string; default "a"; } leaf-list ll { type string; min-elements 1; max-elements 5; } leaf lx { type string; } container c { leaf other { type string; default "o"; } } }`
 	pairs := [][2]string{{"lf", "ll"}, {"ll", "lf"}, {"lx", "lf"}}
 	pr := pairs[symChoice(len(pairs))]
